@@ -14,10 +14,16 @@ IGN = "--ignore-filename-regex=(registry|rustc|harness/src)"
 def build():
     if not os.path.exists(BIN + "llvm-cov"):
         return False, "llvm-cov of the nightly toolchain not found"
+    # instrumented build scripts and proc-macros write a profile where they run (the crate directory,
+    # i.e. /repo): send those to the scratch directory instead
+    junk = os.path.join(core.WORK, "cov-build")
+    os.makedirs(junk, exist_ok=True)
     env = dict(os.environ, CARGO_TARGET_DIR=TARGET, CARGO_NET_OFFLINE="true",
-               RUSTFLAGS="-C instrument-coverage --cfg lipe_find_parser_verif")
+               RUSTFLAGS="-C instrument-coverage --cfg lipe_find_parser_verif",
+               LLVM_PROFILE_FILE=os.path.join(junk, "build-%p-%m.profraw"))
     p = subprocess.run(["cargo", "+nightly", "build", "--offline"], cwd=os.path.join(core.ROOT, "harness"),
                        env=env, capture_output=True, text=True)
+    shutil.rmtree(junk, ignore_errors=True)
     return p.returncode == 0, p.stderr[-1500:]
 
 
